@@ -417,6 +417,7 @@ func (pe *PolicyEngine) insertWorkload(rs interface{}, kind string) error {
 	var podObj *k8s.Pod
 	for _, podObj = range pods {
 		podStr := types.NamespacedName{Namespace: podObj.Namespace, Name: podObj.Name}
+		pe.invalidateCacheOnPodUpdate(podStr.String())
 		pe.podsMap[podStr.String()] = podObj
 		// update cache with new pod associated to to its owner
 		pe.cache.addPod(podObj, podStr.String())
@@ -434,6 +435,7 @@ func (pe *PolicyEngine) insertPod(pod *corev1.Pod) error {
 		return err
 	}
 	podStr := types.NamespacedName{Namespace: podObj.Namespace, Name: podObj.Name}
+	pe.invalidateCacheOnPodUpdate(podStr.String())
 	pe.podsMap[podStr.String()] = podObj
 	// update cache with new pod associated to to its owner
 	pe.cache.addPod(podObj, podStr.String())
@@ -441,6 +443,14 @@ func (pe *PolicyEngine) insertPod(pod *corev1.Pod) error {
 		err = pe.removeRedundantRepresentativePeers(podObj)
 	}
 	return err
+}
+
+// invalidateCacheOnPodUpdate removes the cached results of the owner of an existing pod which is about to be replaced:
+// the cache key holds the owner and its labels only, while cached results depend also on other pod fields (e.g. named ports)
+func (pe *PolicyEngine) invalidateCacheOnPodUpdate(podName string) {
+	if oldPod, ok := pe.podsMap[podName]; ok && pe.cache.cache != nil {
+		pe.cache.deleteWorkload(getPodOwnerKey(oldPod))
+	}
 }
 
 func initPolicyExposureWithoutSelectors() k8s.PolicyExposureWithoutSelectors {
